@@ -1244,12 +1244,16 @@ where
             .list
             .get_unsized_range(self.index)
             .expect("Index is in bounds");
-        let item_data: *const [u8] = core::ptr::slice_from_raw_parts(
-            self.list.unsized_data_ptr().wrapping_byte_add(start),
-            end - start,
-        );
         let offset = self.list.offset_list[self.index];
         self.index += 1;
+        // The offsets come from the (untrusted) account data: never build a slice outside our unsized bytes.
+        let Some(item_data) = self.list.unsized_bytes().get(start..end) else {
+            return Some(Err(error!(
+                ErrorCode::PointerOutOfBounds,
+                "Offsets {start}..{end} of UnsizedList element out of bounds"
+            )));
+        };
+        let item_data: *const [u8] = item_data;
         let ptr = unsafe { T::get_ptr(&mut item_data.cast_mut()) }.ok()?;
         Some(Ok((Ptr(ptr, PhantomData), offset)))
     }
